@@ -119,8 +119,10 @@ def local_names(fn) -> set:
 
 
 class Definite:
-    def __init__(self, fn):
+    def __init__(self, fn, noreturn=None):
         self.fn = fn
+        self.noreturn = noreturn            # predicate on ast.Call: the callee never returns (it always raises)
+        self.end = None
         a = fn.args
         self.params = {x.arg for x in a.posonlyargs + a.args + a.kwonlyargs}
         if a.vararg:
@@ -410,6 +412,8 @@ class Definite:
         # Expr and anything else: evaluate the children in order
         for ch in ast.iter_child_nodes(s):
             st = self.expr(ch, st)
+        if isinstance(s, ast.Expr) and isinstance(s.value, ast.Call) and self.noreturn is not None and self.noreturn(s.value):
+            return TOP                      # `_refuse(msg)`: a helper that always raises ends the path like a raise
         return st
 
     def _carried(self, mark, ends):
@@ -489,12 +493,28 @@ class Definite:
         st = St(frozenset(), frozenset())
         for d in self.fn.args.defaults + [x for x in self.fn.args.kw_defaults if x is not None]:
             pass        # evaluated in the enclosing scope
-        self.block(self.fn.body, st)
+        self.end = self.block(self.fn.body, st)
         return self
 
+    @property
+    def never_returns(self) -> bool:
+        """Every path through the function ends in a raise (no return statement, no falling off the end)."""
+        own = [n for n in _own_nodes(self.fn)]
+        return self.end is TOP and not any(isinstance(n, (ast.Return, ast.Yield, ast.YieldFrom)) for n in own)
 
-def analyse(fn) -> Definite:
-    return Definite(fn).run()
+
+def _own_nodes(fn):
+    todo = list(fn.body)
+    while todo:
+        n = todo.pop()
+        yield n
+        for ch in ast.iter_child_nodes(n):
+            if not isinstance(ch, (ast.FunctionDef, ast.AsyncFunctionDef, ast.Lambda, ast.ClassDef)):
+                todo.append(ch)
+
+
+def analyse(fn, noreturn=None) -> Definite:
+    return Definite(fn, noreturn).run()
 
 
 # ---------------------------------------------------------------------------------------------- unresolved names
@@ -576,3 +596,38 @@ def unresolved_names(fn, enclosing: set, module: set) -> list:
                 walk(ch, visible)
     walk(fn, scope_names(fn))
     return found
+
+
+class Raisers:
+    """Which functions of the project never return (every path raises, directly or through another such function)."""
+    def __init__(self, project):
+        self.p = project
+        self.memo: dict = {}
+
+    def callee(self, f, call):
+        p = self.p
+        cq = p.resolve_static(f.module, call.func, f)
+        if cq is None and isinstance(call.func, ast.Attribute) and isinstance(call.func.value, ast.Name) and \
+                call.func.value.id in ('self', 'cls') and f.cls is not None:
+            m = p.find_method(f.cls, call.func.attr)
+            cq = m.qname if m is not None else None
+        return p.funcs.get(cq) if cq else None
+
+    def never_returns(self, f, call) -> bool:
+        cf = self.callee(f, call)
+        return cf is not None and self.is_raiser(cf)
+
+    def is_raiser(self, cf) -> bool:
+        if cf.qname not in self.memo:
+            self.memo[cf.qname] = False          # recursion guard
+            self.memo[cf.qname] = analyse(cf.node, noreturn=lambda c, cf=cf: self.never_returns(cf, c)).never_returns
+        return self.memo[cf.qname]
+
+    def call_sites(self) -> list:
+        """(function, call node) of every call of a never-returning function of the project."""
+        out = []
+        for f in self.p.funcs.values():
+            for n in _own_nodes(f.node):
+                if isinstance(n, ast.Call) and self.never_returns(f, n):
+                    out.append((f, n))
+        return out
